@@ -23,6 +23,7 @@ import random
 import re
 import signal
 import sys
+import threading
 import time
 import traceback
 
@@ -1081,11 +1082,14 @@ def witnesses():
 # ====================================================================================== main
 def main():
     seed, n_prog, n_expr, n_parse, do_search = (int(x) for x in sys.argv[1:6])
-    out = open(sys.argv[6], "w")
+    out = open(sys.argv[6], "w", buffering=1)  # line buffered: what was produced survives a kill
     budget = float(sys.argv[7]) if len(sys.argv) > 7 else 1e9
     t0 = time.time()
+    deadline = t0 + budget               # stop GENERATING new cases here (the current case is finished)
+    hard_deadline = t0 + 1.5 * budget + 30  # last resort inside the process: flush the counters and leave
     rng = random.Random(seed)
     stats = {}
+    lock = threading.Lock()
 
     def bump(k, n=1):
         stats[k] = stats.get(k, 0) + n
@@ -1097,12 +1101,42 @@ def main():
             if force[0]:
                 rec["key"] = force[0]
             bump("findings_in:" + current[0])
-        out.write(json.dumps(rec, default=str) + "\n")
+        line = json.dumps(rec, default=str) + "\n"
+        with lock:
+            out.write(line)
 
     current = ["-"]
 
+    def watchdog():
+        # runs when a single case outlives every per-case time limit (e.g. inside a solver call that does not return
+        # to the interpreter loop): keep what has been written, say so, exit normally
+        with lock:
+            st = dict(stats)
+            st["cut_short"] = "hard deadline (%.0fs) reached inside one case" % (hard_deadline - t0)
+            st["wall_s"] = round(time.time() - t0, 1)
+            out.write(json.dumps({"t": "stat", "stats": st}, default=str) + "\n")
+            out.flush()
+            os._exit(0)
+
+    # self-test of the time limits (never set in normal runs): VERIF_C17_TEST_HANG=watchdog:<marker> makes the first
+    # process that sees no <marker> file stall in one case (the in-process hard deadline must end it with exit 0);
+    # VERIF_C17_TEST_HANG=outer:<marker> additionally switches the hard deadline off (the caller's last-resort timeout
+    # and its single retry must take over)
+    hang = os.environ.get("VERIF_C17_TEST_HANG", "")
+    hang_mode, _, marker = hang.partition(":")
+    stall = bool(marker) and not os.path.exists(marker)
+    if stall:
+        open(marker, "w").write("stalled once\n")
+    if budget < 1e8 and not (stall and hang_mode == "outer"):
+        wd = threading.Timer(hard_deadline - t0, watchdog)
+        wd.daemon = True
+        wd.start()
+
     # ---------------------------------------------------------------- expressions (printer + parser models)
     for k in range(n_expr):
+        if k >= 50 and time.time() > t0 + 0.15 * budget:
+            bump("cut_short:expressions_generated", k)
+            break
         wf_only = rng.random() < 0.6
         t = rand_tree(rng, rng.randint(1, 4), wf_only)
         try:
@@ -1113,6 +1147,9 @@ def main():
         except Unsupported as e:
             emit({"t": "export_error", "where": "expr", "detail": str(e)})
     for k in range(n_parse):
+        if k >= 50 and time.time() > t0 + 0.3 * budget:
+            bump("cut_short:token_strings_generated", k)
+            break
         toks = rand_tokens(rng, rng.randint(1, 4))
         malformed = rng.random() < 0.25
         if malformed:
@@ -1139,6 +1176,10 @@ def main():
                   "malformed": malformed})
         except Unsupported as e:
             emit({"t": "export_error", "where": "parse", "detail": str(e)})
+
+    if stall:
+        bump("self_test_stall")
+        time.sleep(10 ** 6)
 
     # ---------------------------------------------------------------- names that are reserved words
     if do_search:
@@ -1179,8 +1220,9 @@ def main():
         sc.mod_fields = lambda old, new: (True, set())  # unrelated procedures: every configuration field must agree
     def programs():
         for k in range(n_prog):
-            if time.time() - t0 > budget:
+            if k >= 5 and time.time() > deadline:
                 bump("stopped_on_time_budget")
+                bump("cut_short:programs_generated", k)
                 return
             uid = "q%d" % k
             r_kind = rng.random()
@@ -1237,6 +1279,9 @@ def main():
         if gen_kind.startswith("regress:"):
             bump("regress_cases_run", len(variants))
         for p, applied in variants:
+            if not gen_kind.startswith(("witness", "regress")) and pid > 20 and time.time() > deadline + 0.1 * budget:
+                bump("cut_short:variants_dropped")
+                continue
             pid += 1
             ir = p._loopir_proc
             try:
